@@ -3,8 +3,11 @@ import os, json, itertools
 import vf
 
 PROP = "C08"
-THEOREMS = ["id_function_of_content", "ingest_order_free", "ingest_order_free_ids",
-            "ingest_target_spelling_refuted", "admit_canonical"]
+THEOREMS = ['id_function_of_content', 'id_preimage_inj_per_domain', 'ingress_id_binds_content',
+            'id_cross_domain_alias_refuted', 'ingest_order_free', 'ingest_order_free_ids',
+            'ingest_target_spelling_refuted', 'ingest_retry_duplicate', 'admit_canonical', 'admit_arrival_order_free',
+            'admit_partitioned_canonical', 'commit_dedupe_noop', 'registered_runtime_wf', 'pass_order_free',
+            'at_most_once', 'retry_after_commit_duplicate', 'retry_while_pending_duplicate']
 
 PRE = r"""From Coq Require Import List NArith.
 From Echo Require Import Base.FinMap Base.Bytes Model.Inbox.
@@ -128,8 +131,9 @@ def render_case(c):
     intents = ";".join("%s:%s:%s:%s" % (hx(i[0]), vf.hexb(i[1]), "+".join(par_str(p) for p in i[2]) or "-", tgt_str(i[3]))
                        for i in c["intents"]) or "-"
     ops = ",".join(op_str(o) for o in c["ops"]) or "-"
-    return "mode=%s worlds=%s heads=%s intents=%s ops=%s perms=%s seed=%d" % (
-        c["mode"], worlds, heads, intents, ops, c["perms"], c["seed"])
+    tk = " tk=%d" % c["tk"] if c["mode"] == "restart" else ""
+    return "mode=%s%s worlds=%s heads=%s intents=%s ops=%s perms=%s seed=%d" % (
+        c["mode"], tk, worlds, heads, intents, ops, c["perms"], c["seed"])
 
 
 def parse_case(line):
@@ -146,7 +150,7 @@ def parse_case(line):
                         [] if f[2] == "-" else [par_parse(p) for p in f[2].split("+")], tgt_parse(f[3])))
     ops = [] if m["ops"] == "-" else [op_parse(t) for t in m["ops"].split(",")]
     return {"mode": m["mode"], "worlds": [int(w, 16) for w in it(m["worlds"])], "heads": heads, "intents": intents,
-            "ops": ops, "perms": m.get("perms", "0"), "seed": int(m.get("seed", "1"))}
+            "ops": ops, "perms": m.get("perms", "0"), "seed": int(m.get("seed", "1")), "tk": int(m.get("tk", "1"))}
 
 
 # --------------------------------------------------------------------------- case -> Gallina
@@ -445,38 +449,64 @@ def shrink_case(c, still):
     return cur
 
 
-def sig_of(orc):
-    # "FAIL:order:commits-differ,retry:..." -> first signature
-    return orc.split(":", 1)[1].split(",")[0] if ":" in orc else orc
+def sigs_of(orc):
+    """"FAIL:a,b,c" -> ["a","b","c"] (harness flags are already stable names)"""
+    return [] if orc == "ok" else orc.split(":", 1)[1].split(",")
+
+
+def gen_restart(rng, tier, tk):
+    c = gen_rt(rng, tier, 5)
+    # every head registration valid, no eligibility games: restart is about committed_ingress
+    c["mode"] = "restart"
+    c["tk"] = tk
+    c["ops"] = [o for o in c["ops"] if o[0] in ("s", "p")]
+    c["perms"] = "6"
+    return c
+
+
+ALIAS_CASE = ("mode=ib worlds=1 heads=1:a:-:1:all intents="
+              "63617573616c3a76320000000000000000000000000000000000000000000000:"
+              + "00" * 18 + "0100000000000000" + "7469636b2d7265636569707400" + "00" * 176 + ":-:d.1;"
+              "0:-:0.0.0.0.0.0.0.0:d.1 ops=s0,s1,p perms=all seed=1")
 
 
 def run(tier, seed, replay=None):
     r = vf.Run(PROP, tier, seed, "proof")
     r.assumptions = [
         "Coq 8.16.1 kernel (coqc, vm_compute for Examples / refuted witnesses); no axioms (Print Assumptions: closed); BLAKE3 is a "
-        "section variable H, never axiomatised",
+        "section variable H, never axiomatised; binding theorems conclude `... \\/ Collision H`",
         "model = coq/Model/Inbox.v (envelope, compute_ingress_id preimages, HeadInbox ingest/admit/admit_partitioned/set_policy, "
         "register_writer_head routing, resolve_target, WorldlineRuntime::ingest, super_tick admit/commit loop, committed_ingress, "
         "commit_with_state dedupe); tie = python generator + harness/src/bin/c08.rs on the real WorldlineRuntime + "
         "SchedulerCoordinator::super_tick + vm_compute of the model with a hash table of real BLAKE3 digests of the model's preimages",
-        "not modelled: engine rule execution, provenance, receipt correlation, ticketed ingress, fault/rollback paths (C09), WAL "
-        "recovery (C10); admit_partitioned is modelled and proved about but is pub(crate) and not exercised",
+        "not modelled: engine rule execution, provenance, receipt correlation, ticketed ingress, restore_* (exercised only, "
+        "mode=restart), fault/rollback paths (C09), WAL recovery (C10); admit_partitioned is modelled and proved about but is "
+        "pub(crate) and not exercised; no public API changes the policy of a registered head, so policy changes between passes are "
+        "exercised on bare HeadInbox values (mode=ib) and only modelled at runtime level",
     ]
     r.cov["trusted_base"] = ["coqc 8.16.1 kernel + vm_compute", "python generator/renderer props/c08.py",
                              "harness c08.rs (abstraction: dispositions/pending/batches -> canonical line; pending read through "
-                             "HeadInbox::clone + admit)", "blake3 crate (vfhash)"]
+                             "HeadInbox::clone + admit; committed_ingress probed by exact-head re-submission on a clone)",
+                             "blake3 crate (vfhash)"]
     r.proof_phase(THEOREMS)
+    rcases = []
     if replay:
         d = json.load(open(replay))
         lines = [d["replay"]["case"]] if "case" in d.get("replay", {}) else []
-        cases = [parse_case(l) for l in lines]
+        allc = [parse_case(l) for l in lines]
+        cases = [c for c in allc if c["mode"] != "restart"]
+        rcases = [c for c in allc if c["mode"] == "restart"]
     else:
-        cases = [parse_case(l) for l in vf.load_corpus(PROP)]
-        nrt, nib = (70, 40) if tier == "quick" else (1500, 500)
+        allc = [parse_case(l) for l in vf.load_corpus(PROP)]
+        cases = [c for c in allc if c["mode"] != "restart"]
+        rcases = [c for c in allc if c["mode"] == "restart"]
+        nrt, nib, nrs = (70, 40, 16) if tier == "quick" else (1500, 500, 300)
         for i in range(nrt):
             cases.append(gen_rt(r.rng, tier))
         for i in range(nib):
             cases.append(gen_ib(r.rng, tier))
+        for i in range(nrs):
+            rcases.append(gen_restart(r.rng, tier, 1 if i % 4 else 0))
         pols = [("all",), ("b", 0), ("b", 1), ("b", 2), ("kf", [0x11])]
         if tier == "quick":
             for pol in pols:
@@ -493,22 +523,26 @@ def run(tier, seed, replay=None):
         r.is_broken("harness-build", e)
         return r.finish()
     try:
-        lines, impl, model, meta = both("c08", cases, bins)
+        lines, impl, model, meta = both("c08", cases, bins) if cases else ([], [], [], [])
+        rlines = [render_case(c) for c in rcases]
+        rimpl, rmeta = run_impl("c08restart", rlines, bins) if rcases else ([], [])
     except vf.Broken as e:
         r.is_broken("correspondence-run", e)
         return r.finish()
     bad = vf.diff_lines(r, lines, impl, model)
-    fails = [i for i, m in enumerate(meta) if m["oracle"] != "ok"]
-    for i in fails[:3]:
-        c = cases[i]
-        sig = sig_of(meta[i]["oracle"])
+    # implementation-side oracle: one violation per stable signature, on a shrunk case
+    first = {}
+    for c, m in list(zip(cases, meta)) + list(zip(rcases, rmeta)):
+        for sg in sigs_of(m["oracle"]):
+            first.setdefault(sg, c)
+    for sg, c in list(first.items())[:6]:
         def still(cand):
             _, mm = run_impl("c08shrink", [render_case(cand)], bins)
-            return mm[0]["oracle"] != "ok" and sig_of(mm[0]["oracle"]) == sig
+            return sg in sigs_of(mm[0]["oracle"])
         small = shrink_case(c, still) if not replay else c
         l = render_case(small)
         _, mm = run_impl("c08shrink", [l], bins)
-        r.violation("oracle:" + sig, f"implementation oracle failed: {mm[0]['oracle']}", {"case": l, "oracle": mm[0]["oracle"]})
+        r.violation("oracle:" + sg, f"implementation oracle failed: {mm[0]['oracle']}", {"case": l, "oracle": mm[0]["oracle"]})
     for i in bad[:3]:
         c = cases[i]
         def differs(cand):
@@ -517,37 +551,47 @@ def run(tier, seed, replay=None):
         small = shrink_case(c, differs) if not replay else c
         l, a, b, mm = both("c08shrink", [small], bins)
         r.is_broken("correspondence", f"model and implementation differ on: {l[0]}\n impl : {a[0]}\n model: {b[0]}")
-        if mm[0]["oracle"] != "ok":
-            r.violation("oracle:" + sig_of(mm[0]["oracle"]), "oracle fails on shrunk disagreement", {"case": l[0], "oracle": mm[0]["oracle"]})
+        for sg in sigs_of(mm[0]["oracle"]):
+            r.violation("oracle:" + sg, "oracle fails on shrunk disagreement", {"case": l[0], "oracle": mm[0]["oracle"]})
     if (r.broken and not r.violations) and not replay:
-        extra = [gen_rt(r.rng, "thorough", 7) for _ in range(600)] + [gen_ib(r.rng, "thorough", 7) for _ in range(200)]
+        extra = [gen_rt(r.rng, "thorough", 7) for _ in range(600)] + [gen_ib(r.rng, "thorough", 7) for _ in range(200)] + \
+                [gen_restart(r.rng, "thorough", 1) for _ in range(100)]
         el = [render_case(c) for c in extra]
         try:
             _, em = run_impl("c08search", el, bins)
             for l, m in zip(el, em):
                 if m["oracle"] != "ok":
-                    r.violation("oracle:" + sig_of(m["oracle"]), "oracle failed during search", {"case": l, "oracle": m["oracle"]})
+                    r.violation("oracle:" + sigs_of(m["oracle"])[0], "oracle failed during search", {"case": l, "oracle": m["oracle"]})
                     break
         except vf.Broken as e:
             r.is_broken("search-run", e)
         r.phase("P6_search", cases=len(extra))
     nontriv = {l for l, c in zip(lines, cases) if len(c["intents"]) >= 2 and any(o[0] == "p" for o in c["ops"])}
-    r.cov["evaluations"] = len(cases)
+    r.cov["evaluations"] = len(cases) + len(rcases)
     r.cov["distinct_nontrivial"] = len(nontriv)
     r.cov["rule"] = ("scripted cases (runtime mode: 1-2 worldlines, 1-4 heads incl. invalid registrations, default/named/exact "
                      "routing incl. unresolvable targets, accept-all / kind-filter / budget 0..n+1 policies, causal parents, "
                      "respelled duplicates, retries, passes and eligibility changes interleaved; inbox mode: bare HeadInbox with "
                      "policy changes between admits; exhaustive pass placements) run through harness and Coq model; non-trivial "
                      "= >=2 intents and >=1 pass; every case is re-run by the harness under all (product of window factorials "
-                     "<=720) or sampled arrival orders, retry insertions and equivalent target spellings")
-    r.cov["variant_runs_on_impl"] = sum(m["variants"] for m in meta)
+                     "<=720) or sampled arrival orders, retry insertions and equivalent target spellings; restart cases "
+                     "(restore_* APIs, ticketed and plain ingress) are oracle-only")
+    r.cov["variant_runs_on_impl"] = sum(m["variants"] for m in meta) + sum(m["variants"] for m in rmeta)
     r.cov["commits_observed"] = sum(m["commits"] for m in meta)
+    r.cov["restart_cases"] = {"ticketed": sum(1 for c in rcases if c["tk"]), "plain_ingest": sum(1 for c in rcases if not c["tk"]),
+                              "commits_observed": sum(m["commits"] for m in rmeta)}
     r.cov["f11_cases_retained_envelope_order_dependent"] = sum(1 for m in meta if m["f11"])
     r.cov["f11_note"] = ("cases where the retained envelope (pending / witnessed-submission target spelling) depends on arrival "
-                         "order while commits, receipts, state roots, pending ids and committed sets do not")
+                         "order while commits, receipts, state roots, pending ids and committed sets do not (DESIGN F11: "
+                         "observable only in retained envelope material, never in commits)")
+    # the cross-domain alias witness of id_cross_domain_alias_refuted, replayed on the real code
+    for l, il in zip(lines, impl):
+        if l == ALIAS_CASE:
+            ids = il.split()[0].split("=", 1)[1].split(",")
+            r.cov["cross_domain_alias_ids_equal_on_impl"] = (len(ids) == 2 and ids[0] == ids[1])
     r.cov["traces_validated_against_impl"] = len(cases) - len(bad)
     hist = {}
-    for c in cases:
+    for c in cases + rcases:
         k = "%s:%d" % (c["mode"], len(c["intents"]))
         hist[k] = hist.get(k, 0) + 1
     r.cov["intent_count_histogram"] = dict(sorted(hist.items()))
@@ -562,7 +606,7 @@ def run(tier, seed, replay=None):
         for h in c["heads"]:
             pols[h[4][0]] = pols.get(h[4][0], 0) + 1
     r.cov["policy_histogram"] = pols
-    r.cov["samples"] = lines[:3]
+    r.cov["samples"] = lines[:2] + rlines[:1]
     r.phase("P4_correspondence", cases=len(cases), differing=len(bad))
-    r.phase("P5_oracle", failing=len(fails))
+    r.phase("P5_oracle", failing=sum(1 for m in meta + rmeta if m["oracle"] != "ok"), restart_cases=len(rcases))
     return r.finish()
